@@ -318,13 +318,17 @@ def run(ctx):
     why = "shape"
     if good:
         r = rel.cstr(somes[0].result.fields["0"])
-        m = re.match(r"^binop:Sub\(binop:Sub\(core::slice::<impl \[T\]>::len\(toks\), 1_usize\), \.0\(\.0\(as:Some\((std::iter::Iterator::find\(.*\))\)\)\)\)$", r)
+        m = re.match(r"^binop:Sub\(binop:Sub\(core::slice::<impl \[T\]>::len\(toks\), 1_usize\), \.0\(\.0\(as:Some\((std::iter::Iterator::find\(.*\))\)\)\)\)$", r) or \
+            re.match(r"^binop:Sub\(binop:Sub\(core::slice::<impl \[T\]>::len\(toks\), 1_usize\), \.0\(as:Some\((std::iter::Iterator::position\(.*\))\)\)\)$", r)
         good = m is not None
         why = "index conversion is %s" % r[:100]
         if good:
             f = m.group(1)
             REV = r"std::iter::Iterator::rev\(core::slice::<impl \[T\]>::iter\(toks\)\)"
             m2 = re.match(r"^std::iter::Iterator::find\(std::iter::Iterator::enumerate\(std::iter::Iterator::zip\(%s, std::iter::Iterator::scan\(%s, 0_i32, closure<\{closure#(\d+)\}>\)\)\), closure<\{closure#(\d+)\}>\)$" % (REV, REV), f)
+            with_index = m2 is not None
+            if m2 is None:
+                m2 = re.match(r"^std::iter::Iterator::position\(std::iter::Iterator::zip\(%s, std::iter::Iterator::scan\(%s, 0_i32, closure<\{closure#(\d+)\}>\)\), closure<\{closure#(\d+)\}>\)$" % (REV, REV), f)
             good = m2 is not None
             why = "search is %s" % f[:140]
             if good:
@@ -347,7 +351,8 @@ def run(ctx):
                     # predicate: operator token at running count 1
                     verdicts = {}
                     for nm, tok in (("op", Variant(TOK, "Op", {"0": Sym("o")})), ("num", Variant(TOK, "Num", {"0": Sym("n")})), ("open", Variant(TOK, "Paren", {"0": Variant("parser::Paren", "Open", {})}))):
-                        qs = [q for q in Interp(fb, PO()).run(pc, [Sym("env"), Tup([Sym("i"), Tup([tok, Sym("cnt")])])]) if q.status == "return"]
+                        parg = Tup([Sym("i"), Tup([tok, Sym("cnt")])]) if with_index else Tup([tok, Sym("cnt")])
+                        qs = [q for q in Interp(fb, PO()).run(pc, [Sym("env"), parg]) if q.status == "return"]
                         verdicts[nm] = sorted((rel.cstr(q.result), tuple((rel.cstr(d[1]), str(d[2])) for d in q.decisions)) for q in qs)
                     op_ok = verdicts["op"] == sorted([("true", (("binop:Eq(cnt, 1_i32)", "True"),)), ("false", (("binop:Eq(cnt, 1_i32)", "False"),))])
                     rest_ok = all(all(v[0] == "false" for v in verdicts[k]) and verdicts[k] for k in ("num", "open"))
